@@ -166,20 +166,27 @@ def unjk(k):
 
 
 def struct_usage(d):
-  """plain | struct-structural (struct-typed ports moved by connections only) | struct-behavioral (a struct-typed wire, or a struct
-  signal read / written inside an update block)"""
+  """plain | struct-structural (struct-typed ports moved by connections only) | struct-read-only (update blocks read fields of the
+  component's own struct-typed input ports, nothing else) | struct-behavioral (a struct-typed wire, or a struct signal written / a
+  non-input struct signal read inside an update block)"""
   insts = ir.instances(d)
   if not any(t[0] == "S" for t in insts.values()): return "plain"
+  reads = False
   for path, cmp in ir.walk_comps(d):
     for name, kind, t, dims in cmp["sigs"]:
       if t[0] == "S" and kind == "wire": return "struct-behavioral"
     for blk in cmp.get("blocks", []):
       R, W = [], []
       ir.stmt_access(blk[2], R, W)
-      for r in R + W:
-        if r[2] in ("reset", "clk"): continue
+      for r in W:
         if ir.sig_decl(ir.comp_at(d, tuple(path) + tuple(r[1])), r[2])[2][0] == "S": return "struct-behavioral"
-  return "struct-structural"
+      for r in R:
+        if r[2] in ("reset", "clk"): continue
+        decl = ir.sig_decl(ir.comp_at(d, tuple(path) + tuple(r[1])), r[2])
+        if decl[2][0] == "S":
+          if decl[1] != "in" or r[1]: return "struct-behavioral"      # only reads of the component's OWN input ports are the benign class
+          reads = True
+  return "struct-read-only" if reads else "struct-structural"
 
 
 def has_struct(d):
